@@ -377,6 +377,13 @@ func c13Scenarios(tier string) []*c13scn {
 		}
 	}
 	scs := []*c13scn{
+		// first on purpose: nothing has touched the process yet, so whatever the code under test keeps in
+		// package-level variables (caches keyed by address, interned strings) is still cold when two workers
+		// bring in unrelated flows with addresses never seen before
+		{name: "S0-unrelated-new-flows-on-a-cold-process", setup: mk, threads: [][]c13op{
+			{c13rec("Agg(k1,new)", c13spec(1, aggfix.Both, 1, 1))},
+			{c13rec("Agg(k2,new)", c13spec(2, aggfix.Both, 1, 1))},
+		}},
 		{name: "S1-same-key-src-dst-vs-scan", setup: func() *intermediate.AggregationProcess {
 			ap := mk()
 			ingest(ap, c13spec(0, aggfix.Src, 2, 1))
